@@ -738,3 +738,161 @@ func c15ReportNotTrimmed(c *Ctx, rule string) {
 		c.R.Break(fmt.Sprintf("%s: expected GetChanged to fill State and SpecSrc and to drop duplicates, found %d assignments and %d deletions", rule, ns, nd))
 	}
 }
+
+// rootCell follows a captured variable back to the Alloc that holds it.
+func rootCell(cell ssa.Value) ssa.Value {
+	for i := 0; i < 6; i++ {
+		fv, ok := cell.(*ssa.FreeVar)
+		if !ok {
+			return cell
+		}
+		fn := fv.Parent()
+		if fn == nil || fn.Parent() == nil {
+			return cell
+		}
+		var next ssa.Value
+		ssau.Instrs(fn.Parent(), func(in ssa.Instruction) {
+			if mc, isMC := in.(*ssa.MakeClosure); isMC && mc.Fn == ssa.Value(fn) {
+				if b := bindingOf(mc, fv); b != nil {
+					next = b
+				}
+			}
+		})
+		if next == nil {
+			return cell
+		}
+		cell = next
+	}
+	return cell
+}
+
+// c19SuccessOnlyAfterSuccess: the value that counts as a completion signal of
+// a step (the one sent where a worker's verdict was "no error") is sent
+// nowhere else.  In particular the timeout's callback cannot send it: a step
+// whose expected message never arrived does not pass because time ran out.
+func c19SuccessOnlyAfterSuccess(c *Ctx, rule string) {
+	run := c.P.Func("tools/expect", "Session", "Run")
+	if run == nil {
+		c.R.Break(rule + ": tools/expect Session.Run not found")
+		return
+	}
+	var scope []*ssa.Function
+	var add func(f *ssa.Function)
+	add = func(f *ssa.Function) {
+		scope = append(scope, f)
+		for _, a := range f.AnonFuncs {
+			add(a)
+		}
+	}
+	add(run)
+	type sendSite struct {
+		in     *ssa.Send
+		root   ssa.Value
+		noErr  bool
+		inFunc *ssa.Function
+	}
+	var sends []sendSite
+	for _, f := range scope {
+		ssau.Instrs(f, func(in ssa.Instruction) {
+			sd, ok := in.(*ssa.Send)
+			if !ok || sd.X.Type().String() != "error" {
+				return
+			}
+			st := sendSite{in: sd, inFunc: f}
+			if cell := cellOf(sd.X); cell != nil {
+				st.root = rootCell(cell)
+			}
+			for _, ft := range flow.FactsAt(sd.Block()) {
+				bo, isB := ft.Cond.(*ssa.BinOp)
+				if !isB || bo.X.Type().String() != "error" {
+					continue
+				}
+				if !provablyNil(bo.Y, sd.Block()) && !provablyNil(bo.X, sd.Block()) {
+					continue
+				}
+				if (bo.Op.String() == "==" && ft.True) || (bo.Op.String() == "!=" && !ft.True) {
+					st.noErr = true
+				}
+			}
+			sends = append(sends, st)
+		})
+	}
+	success := map[ssa.Value]bool{}
+	for _, st := range sends {
+		if st.noErr && st.root != nil {
+			success[st.root] = true
+		}
+	}
+	if len(success) == 0 {
+		c.R.Break(fmt.Sprintf("%s: no completion signal found in Session.Run (%d sends of an error examined)", rule, len(sends)))
+		return
+	}
+	perFn := map[*ssa.Function]int{}
+	for _, st := range sends {
+		if st.root == nil || !success[st.root] {
+			continue
+		}
+		perFn[st.inFunc]++
+		c.R.Check(st.noErr, rule, fmt.Sprintf("%s: completion signal #%d", fname(st.inFunc), perFn[st.inFunc]), c.pos(st.in), "sent where the worker's verdict was no error", "the value that counts as a step's completion signal is also sent here, where no worker has finished without error (say when the step's time is up): a step can pass although an expected message never arrived")
+	}
+}
+
+// c01ComparedAsIs: a pattern constant matches the message string equal to it.
+// The strings the matcher compares for equality are therefore the strings it
+// was given: an operand that was computed (cut, concatenated, or returned by a
+// function outside the matcher) is a constant standing for another string.
+func c01ComparedAsIs(c *Ctx, rule string, fns []*ssa.Function) {
+	isString := func(t types.Type) bool {
+		b, ok := t.Underlying().(*types.Basic)
+		return ok && b.Kind() == types.String
+	}
+	inScope := map[*ssa.Function]bool{}
+	for _, f := range fns {
+		inScope[f] = true
+	}
+	n := 0
+	perFn := map[*ssa.Function]int{}
+	for _, f := range fns {
+		if prog.PkgOf(f) != "match" {
+			continue
+		}
+		ssau.Instrs(f, func(in ssa.Instruction) {
+			bo, ok := in.(*ssa.BinOp)
+			if !ok || (bo.Op.String() != "==" && bo.Op.String() != "!=") || !isString(bo.X.Type()) {
+				return
+			}
+			if _, isC := bo.X.(*ssa.Const); isC {
+				return
+			}
+			if _, isC := bo.Y.(*ssa.Const); isC {
+				return
+			}
+			n++
+			perFn[f]++
+			var bad []string
+			for _, op := range []ssa.Value{bo.X, bo.Y} {
+				for _, d := range deepDefs(op, fns) {
+					switch x := d.(type) {
+					case *ssa.Slice:
+						bad = append(bad, "a part of a string ("+c.posv(x)+")")
+					case *ssa.BinOp:
+						bad = append(bad, "a concatenation ("+c.posv(x)+")")
+					case *ssa.Call:
+						if sc := x.Common().StaticCallee(); sc == nil || !inScope[sc] {
+							bad = append(bad, "the result of "+ssau.CalleeName(x)+" ("+c.posv(x)+")")
+						}
+					case *ssa.Convert:
+						bad = append(bad, "a converted value ("+c.posv(x)+")")
+					}
+				}
+			}
+			if len(bad) > 2 {
+				bad = bad[:2]
+			}
+			c.R.Check(len(bad) == 0, rule, fmt.Sprintf("%s: string comparison #%d", fname(f), perFn[f]), c.pos(in), "both strings are the ones the matcher was given (or found in the bindings)", "a string compared here is "+strings.Join(bad, ", ")+": a pattern constant then stands for a string other than itself")
+		})
+	}
+	if n == 0 {
+		c.R.Break(rule + ": no comparison of two strings found in the matcher")
+	}
+}
